@@ -62,6 +62,7 @@ def run_workload(result, cfg, script, tier, seed, parts=8, timeout=3600, extra_a
     """Run py/<script> as `parts` processes (--part k/n), restart after crashes, fold the outcome into `result`.
     Every violation / crash becomes an entry of result['violations'] with config=cfg."""
     label = label or os.path.splitext(script)[0]
+    pybuild.py_build(cfg)        # build (or refresh) once, before the worker threads start
     lock = threading.Lock()
     summaries = []
     t0 = time.time()
